@@ -2,7 +2,7 @@
 # amaranth: UnusedElaboratable=no
 from hypothesis import strategies as st
 
-from vlib import arbsim
+from vlib import arbsim, gens, sim
 
 PROP = "C08"
 RULE = ("Arbiter geometry and feature subset, 1-6 initiators each with its own granularity (>= the "
@@ -16,7 +16,7 @@ RULE = ("Arbiter geometry and feature subset, 1-6 initiators each with its own g
         "the acknowledge. Non-trivial = N >= 2, >= 2 ownership changes and a non-owner requesting "
         "while the owner holds the bus. Distinct = canonical JSON.")
 BUDGET = {"quick": (16, 300), "thorough": (16, 6000)}
-ESSENTIAL = ["contended_while_busy", "lock_hold_without_stb", "released_by_dropping_stb", "ack_while_contended",
+ESSENTIAL = ["refused_add_ghost", "contended_while_busy", "lock_hold_without_stb", "released_by_dropping_stb", "ack_while_contended",
              "arbiter_has_lock", "arbiter_lacks_lock", "mixed_granularity", "intermediate_granularity",
              "owner_lacks_optional", "no_stall_on_bus_compat", "N=1", "N=5", "N=6"]
 ASSUMPTIONS = ["initiators are not assumed to behave; the owner is the model's owner, cross-checked every "
@@ -24,11 +24,13 @@ ASSUMPTIONS = ["initiators are not assumed to behave; the owner is the model's o
 
 
 def strategy(tier):
-    return st.fixed_dictionaries({"cfg": arbsim.arbiter_config(max_n=6 if tier == "quick" else 8),
-                                  "sched": arbsim.schedule_spec()})
+    return gens.with_pre(st.fixed_dictionaries({"cfg": arbsim.arbiter_config(max_n=6 if tier == "quick" else 8),
+                                               "sched": arbsim.schedule_spec()}))
 
 
 def check(spec, stats):
+    if sim.set_pre(spec):
+        stats.label("pre_elaborated")
     arbsim.run_schedule(spec["cfg"], spec["sched"], stats, PROP, True, True)
     n = len(spec["cfg"]["intrs"])
     stats.nontrivial = n >= 2 and stats._adds.get("ownership_changes", 0) >= 2 and stats.has("contended_while_busy")
